@@ -78,6 +78,16 @@ func (fc *FnCtx) instr(in ssa.Instruction, st *State) {
 		}
 		fc.vals[x] = Val{Clo: c, GoT: x.Type()}
 	case *ssa.MakeSlice:
+		if kindOf(x.Type()) == KStrList {
+			ln := fc.term(fc.val(x.Len))
+			fc.safety("bounds", g, smt.Le(smt.IntLit(0), ln), where)
+			z := fc.S.Fresh("mkS", smt.SList)
+			i := smt.Const("i!m", smt.Int)
+			fc.S.Assert(smt.Implies(smt.Ge(ln, smt.IntLit(0)), smt.Eq(smt.LLen(z), ln)), "")
+			fc.S.Assert(smt.Forall([]*smt.Term{i}, smt.Eq(smt.LAt(z, i), smt.SEmpty), []*smt.Term{smt.LAt(z, i)}), "")
+			fc.vals[x] = Val{T: z, GoT: x.Type()}
+			return
+		}
 		ln := fc.term(fc.val(x.Len))
 		cp := fc.term(fc.val(x.Cap))
 		fc.safety("bounds", g, smt.And(smt.Le(smt.IntLit(0), ln), smt.Le(ln, cp)), where)
@@ -149,8 +159,13 @@ func (fc *FnCtx) alloc(x *ssa.Alloc, st *State) Val {
 	elem := x.Type().(*types.Pointer).Elem()
 	ref := fc.newRef()
 	v := fc.fromTerm(ref, x.Type())
+	if kindOf(elem) == KStruct {
+		fc.S.Assert(smt.Eq(fc.dtype(ref), fc.typeID(x.Type())), "")
+	}
 	z := fc.zeroVal(elem)
+	fc.inAlloc = true
 	fc.storeLoc(st, v.Loc, elem, z, smt.True, "")
+	fc.inAlloc = false
 	return v
 }
 
@@ -165,6 +180,9 @@ func (fc *FnCtx) unop(x *ssa.UnOp, st *State, g *smt.Term, where string) Val {
 		if v.Loc.Kind == LGlobal {
 			if id, ok := fc.sentinelOf(v.Loc.Key); ok {
 				return fc.fromTerm(id, x.Type())
+			}
+			if fc.P.isConstTable(v.Loc.Key[2:]) {
+				return fc.constTableVal(v.Loc.Key[2:], x.Type(), st)
 			}
 		}
 		return fc.loadLoc(st, v.Loc, x.Type(), g, where)
@@ -214,9 +232,19 @@ func (fc *FnCtx) binop(op token.Token, xv, yv Val, xt, rt types.Type, g *smt.Ter
 		switch {
 		case k == KStr:
 			eq = smt.SEq(fc.term(xv), fc.term(yv))
-		case k == KStruct || k == KArray:
+		case k == KStruct || k == KArray || k == KStrArr:
 			fc.abstr("struct/array comparison")
 			return fc.freshVal("cmp", rt)
+		case k == KStrList:
+			// only comparison with nil is legal: nil and empty are identified (stated abstraction)
+			a, b := fc.term(xv), fc.term(yv)
+			if a.Sort != smt.SList {
+				a = smt.LNil
+			}
+			if b.Sort != smt.SList {
+				b = smt.LNil
+			}
+			eq = smt.Eq(smt.LLen(a), smt.LLen(b))
 		default:
 			eq = smt.Eq(fc.term(xv), fc.term(yv))
 		}
@@ -268,7 +296,11 @@ func (fc *FnCtx) binop(op token.Token, xv, yv Val, xt, rt types.Type, g *smt.Ter
 		r = smt.Mul(x, y)
 	case token.QUO:
 		fc.safety("div", g, smt.Neq(y, smt.IntLit(0)), where)
-		r = smt.App("gdiv", smt.Int, x, y)
+		if y.Op == "ite" && smt.IsLitIte(y) {
+			r = smt.MapIte(y, func(l *smt.Term) *smt.Term { return smt.App("gdiv", smt.Int, x, l) })
+		} else {
+			r = smt.App("gdiv", smt.Int, x, y)
+		}
 	case token.REM:
 		fc.safety("div", g, smt.Neq(y, smt.IntLit(0)), where)
 		r = smt.App("gmod", smt.Int, x, y)
@@ -343,11 +375,21 @@ func (fc *FnCtx) indexAddr(x *ssa.IndexAddr, st *State, g *smt.Term, where strin
 		fc.safety("bounds", g, smt.And(smt.Le(smt.IntLit(0), idx), smt.Lt(idx, smt.IntLit(arr.Len()))), where)
 		ref := fc.term(xv)
 		fc.nilCheck(ref, g, where)
+		if kindOf(t.Elem()) == KStrArr {
+			return Val{Loc: &Loc{Kind: LStrElem, Base: ref, Idx: idx, Elem: arr.Elem()}, GoT: x.Type()}
+		}
 		return Val{Loc: &Loc{Kind: LElem, Base: ref, Idx: idx, Elem: arr.Elem()}, GoT: x.Type()}
 	case *types.Slice:
 		s := fc.term(xv)
+		if kindOf(x.X.Type()) == KStrList {
+			fc.safety("bounds", g, smt.And(smt.Le(smt.IntLit(0), idx), smt.Lt(idx, smt.LLen(s))), where)
+			return Val{Loc: &Loc{Kind: LListElem, Base: s, Idx: idx, Elem: t.Elem()}, GoT: x.Type()}
+		}
 		fc.safety("bounds", g, smt.And(smt.Le(smt.IntLit(0), idx), smt.Lt(idx, smt.SlLen(s))), where)
-		return Val{Loc: &Loc{Kind: LElem, Base: smt.SlArr(s), Idx: smt.Add(smt.SlOff(s), idx), Elem: t.Elem()}, GoT: x.Type()}
+		if kindOf(t.Elem()) == KStruct {
+			return fc.fromTerm(fc.elemRef(smt.SlArr(s), smt.Add(smt.SlOff(s), idx)), x.Type())
+		}
+		return Val{Loc: &Loc{Kind: LElem, Base: smt.SlArr(s), Off: smt.SlOff(s), Idx: idx, Elem: t.Elem()}, GoT: x.Type()}
 	}
 	fc.refuse("IndexAddr on %s", x.X.Type())
 	return Val{}
@@ -356,6 +398,10 @@ func (fc *FnCtx) indexAddr(x *ssa.IndexAddr, st *State, g *smt.Term, where strin
 func (fc *FnCtx) index(x *ssa.Index, st *State, g *smt.Term, where string) Val {
 	idx := fc.term(fc.val(x.Index))
 	s := fc.term(fc.val(x.X))
+	if s.Sort == smt.SList {
+		fc.safety("bounds", g, smt.And(smt.Le(smt.IntLit(0), idx), smt.Lt(idx, smt.LLen(s))), where)
+		return Val{T: smt.LAt(s, idx), GoT: x.Type()}
+	}
 	fc.safety("bounds", g, smt.And(smt.Le(smt.IntLit(0), idx), smt.Lt(idx, smt.SLen(s))), where)
 	t := smt.SAt(s, idx)
 	if kindOf(x.Type()) != KInt {
@@ -391,6 +437,12 @@ func (fc *FnCtx) slice(x *ssa.Slice, st *State, g *smt.Term, where string) Val {
 		return Val{T: r, GoT: x.Type()}
 	case *types.Slice:
 		s := fc.term(xv)
+		if kindOf(x.X.Type()) == KStrList {
+			lo := opt(x.Low, smt.IntLit(0))
+			hi := opt(x.High, smt.LLen(s))
+			fc.safety("bounds", g, smt.And(smt.Le(smt.IntLit(0), lo), smt.Le(lo, hi), smt.Le(hi, smt.LLen(s))), where)
+			return Val{T: smt.LSub(s, lo, hi), GoT: x.Type()}
+		}
 		lo := opt(x.Low, smt.IntLit(0))
 		hi := opt(x.High, smt.SlLen(s))
 		mx := opt(x.Max, smt.SlCap(s))
@@ -405,6 +457,11 @@ func (fc *FnCtx) slice(x *ssa.Slice, st *State, g *smt.Term, where string) Val {
 		fc.safety("bounds", g, smt.And(smt.Le(smt.IntLit(0), lo), smt.Le(lo, hi), smt.Le(hi, mx), smt.Le(mx, n)), where)
 		ref := fc.term(xv)
 		fc.nilCheck(ref, g, where)
+		if kindOf(t.Elem()) == KStrArr {
+			// []string is a value: the slice is a copy of the array's current content
+			lst := fc.readKey(st, "elemsS", ref, smt.SList)
+			return Val{T: fc.S.Define("strs", smt.LSub(lst, lo, hi)), GoT: x.Type()}
+		}
 		return Val{T: smt.MkSlice(ref, lo, smt.Sub(hi, lo), smt.Sub(mx, lo)), GoT: x.Type()}
 	}
 	fc.refuse("Slice of %s", x.X.Type())
@@ -510,7 +567,11 @@ func cmpDec(a, b string) int {
 // ---- interfaces ---------------------------------------------------------------
 
 func (fc *FnCtx) typeID(t types.Type) *smt.Term {
-	name := "ty!" + smt.Ident(fc.P.TypeStr(t, nil))
+	return fc.typeIDByName(fc.P.TypeStr(t, nil))
+}
+
+func (fc *FnCtx) typeIDByName(tname string) *smt.Term {
+	name := "ty!" + smt.Ident(tname)
 	if !fc.S.Declared(name) {
 		fc.S.DeclareFun(name, nil, smt.Int)
 		// distinctness: each type id is pinned to a hash-free counter via an injective naming function
@@ -635,6 +696,38 @@ func (fc *FnCtx) checkEnsures(vars map[string]Val, st *State, g *smt.Term, where
 		goal := ec.boolean(e.E)
 		tags := e.Tags
 		fc.oblige("ensures", e.Label, tags, g, goal, where, e.Text)
+	}
+	for _, in := range fc.C.Implements {
+		ic := fc.P.Contract[in]
+		if ic == nil {
+			fc.refuse("implements: unknown interface contract %s", in)
+		}
+		// positional renaming: interface contract parameters/results -> this function's values
+		ivars := map[string]Val{}
+		for i, pn := range ic.Params {
+			if i < len(fc.Fn.Params) {
+				ivars[pn] = fc.vals[fc.Fn.Params[i]]
+			}
+		}
+		for i, rn := range ic.Results {
+			if i < len(fc.C.Results) {
+				if v, ok := vars[fc.C.Results[i]]; ok {
+					ivars[rn] = v
+				}
+			}
+		}
+		for _, e := range ic.Ensures {
+			ec := &evalCtx{fc: fc, vars: ivars, cur: st, old: fc.entry, atReturn: true}
+			fc.oblige("implements", in+"."+e.Label, e.Tags, g, ec.boolean(e.E), where, e.Text)
+		}
+	}
+	for _, en := range fc.C.Establishes {
+		gi := fc.P.GlobalInv(en)
+		if gi == nil {
+			fc.refuse("establishes: unknown global invariant %s", en)
+		}
+		ec := &evalCtx{fc: fc, vars: map[string]Val{}, cur: st, old: fc.entry}
+		fc.oblige("establishes", en, nil, g, ec.boolean(gi.E), where, gi.Text)
 	}
 	fc.frameCheck(vars, st, g, where)
 }
